@@ -1,14 +1,17 @@
 import Sebuf.Route
+import Sebuf.Lemmas.PropsC03
 /-!
 # C03 — all five generators agree on each RPC's verb, path and parameter placement
 
 Full statement (`PathsAgree`, `PlacementAgree`, `OneOperation`) is kept visible; the current
 code does not satisfy it (witness theorems `not_*`), so the proved theorems are the `_partial`
 ones, each under an explicit decidable side condition, plus `verbs_agree` (full).
+
+`knownVerbs` and the operation table model (`upsert`, `opKey`, `oaOps`) are defined in
+`Sebuf.Lemmas.PropsC03`, next to the helper lemmas whose statements use them.
 -/
 namespace Sebuf.C03
 open Sebuf
-
 
 /-- witness records (one field per line: Lean's structure-instance layout rule). -/
 def mk (svc meth goName pkg base : String) (cfg : Bool) (path : String) (verb : Nat) (qs : List String) : MethodIn :=
@@ -22,51 +25,14 @@ def mk (svc meth goName pkg base : String) (cfg : Bool) (path : String) (verb : 
     verbNum := verb
     queryNames := qs.map String.toList }
 
-def knownVerbs : List Str := ["GET".toList, "POST".toList, "PUT".toList, "DELETE".toList, "PATCH".toList]
-
 /-- Every string the regenerated `HTTPMethodToString` table can return is one of the five verbs. -/
 theorem table_known : ∀ p ∈ Gen.Verbs.table, p.2.toList ∈ knownVerbs := by decide
 
+/-- the `default:` branch of `HTTPMethodToString` returns one of the five verbs too. -/
 theorem fallback_known : Gen.Verbs.fallback.toList ∈ knownVerbs := by decide
 
-theorem lookup_mem {α β} [BEq α] [LawfulBEq α] (l : List (α × β)) (k : α) (v : β)
-    (h : l.lookup k = some v) : (k, v) ∈ l := by
-  induction l with
-  | nil => simp [List.lookup] at h
-  | cons p t ih =>
-    obtain ⟨a, b⟩ := p
-    simp only [List.lookup] at h
-    split at h
-    · rename_i heq
-      have : k = a := by simpa using heq
-      subst this
-      cases h
-      exact List.mem_cons_self
-    · exact List.mem_cons_of_mem _ (ih h)
-
-theorem verbOfNum_known (n : Nat) : verbOfNum n ∈ knownVerbs := by
-  unfold verbOfNum
-  split
-  · rename_i s h
-    exact table_known (n, s) (lookup_mem _ _ _ h)
-  · exact fallback_known
-
-theorem verbOf_known (m : MethodIn) : verbOf m ∈ knownVerbs := by
-  unfold verbOf
-  split
-  · simp only
-    split
-    · decide
-    · exact verbOfNum_known _
-  · decide
-
-/-- On the five verbs, OpenAPI's lower-casing, filing and our upper-casing are the identity. -/
-theorem upper_lower_known : ∀ v ∈ knownVerbs,
-    toUpperStr (let w := toLowerStr v
-                let w := if w = [] then "post".toList else w
-                if w = "get".toList ∨ w = "post".toList ∨ w = "put".toList ∨ w = "delete".toList ∨ w = "patch".toList
-                then w else "post".toList) = v ∧ v ≠ [] := by decide
-
+/-- the verb under which OpenAPI files an operation (lower-cased, unknown ⇒ `post`) is, upper-cased,
+the verb the other generators use. -/
 theorem openapi_verb (m : MethodIn) : toUpperStr (openapiVerbLower m) = verbOf m := by
   unfold openapiVerbLower verbOf
   by_cases hc : m.hasConfig
@@ -97,28 +63,7 @@ def ExplicitPathOK (m : MethodIn) : Prop :=
   m.hasConfig = true ∧ m.path ≠ [] ∧ (m.base = [] → hasPrefixSlash m.path = true) ∧
   (m.base ≠ [] → hasPrefixSlash m.base = true)
 
-theorem ensure_of_prefix {s : Str} (h : hasPrefixSlash s = true) : ensureLeadingSlash s = s := by
-  match s with
-  | [] => simp [hasPrefixSlash] at h
-  | x :: r =>
-    by_cases hx : x = '/'
-    · subst hx; simp [ensureLeadingSlash]
-    · have h1 : hasPrefixSlash (x :: r) = false := by
-        unfold hasPrefixSlash; split <;> simp_all
-      simp [h1] at h
-
-theorem slash_trim (c : Str) : (if hasPrefixSlash c then c else '/' :: c) = '/' :: trimPrefixSlash c := by
-  match c with
-  | [] => simp [hasPrefixSlash, trimPrefixSlash]
-  | x :: r =>
-    by_cases hx : x = '/'
-    · subst hx; simp [hasPrefixSlash, trimPrefixSlash]
-    · have h1 : hasPrefixSlash (x :: r) = false := by
-        unfold hasPrefixSlash; split <;> simp_all
-      have h2 : trimPrefixSlash (x :: r) = x :: r := by
-        unfold trimPrefixSlash; split <;> simp_all
-      simp [h1, h2]
-
+/-- under `ExplicitPathOK` the Go server's path template is the clients'. -/
 theorem goHttp_eq_client (m : MethodIn) (h : ExplicitPathOK m) : goHttpPath m = clientPath m := by
   obtain ⟨hc, hp, hb0, hb1⟩ := h
   unfold goHttpPath clientPath customPath buildHTTPPath
@@ -127,6 +72,7 @@ theorem goHttp_eq_client (m : MethodIn) (h : ExplicitPathOK m) : goHttpPath m = 
   · simp [hb, hp, ensure_of_prefix (hb0 hb)]
   · simp [hb, hp, ensure_of_prefix (hb1 hb), slash_trim]
 
+/-- under `ExplicitPathOK` the OpenAPI path template is the clients'. -/
 theorem openapi_eq_client (m : MethodIn) (h : ExplicitPathOK m) : openapiPath m = clientPath m := by
   obtain ⟨hc, hp, _, _⟩ := h
   unfold openapiPath clientPath customPath
@@ -181,46 +127,6 @@ theorem not_placement_agree : ¬ PlacementAgree := by
   revert this; decide
 
 /-! ## One operation per RPC in the OpenAPI document -/
-
-/-- `processMethod`: path items keyed by path, operation slot keyed by verb; a later RPC with
-the same (path, verb) overwrites the earlier one. Modelled as an association list upsert. -/
-def upsert (k : Str × Str) (v : Str) : List ((Str × Str) × Str) → List ((Str × Str) × Str)
-  | [] => [(k, v)]
-  | (k', v') :: t => if k' = k then (k, v) :: t else (k', v') :: upsert k v t
-
-def opKey (m : MethodIn) : Str × Str := ((route .openapi m).template, openapiVerbLower m)
-
-def oaOps (ms : List MethodIn) : List ((Str × Str) × Str) :=
-  ms.foldl (fun acc m => upsert (opKey m) m.methName acc) []
-
-theorem upsert_absent (k : Str × Str) (v : Str) (l : List ((Str × Str) × Str))
-    (h : k ∉ l.map Prod.fst) : upsert k v l = l ++ [(k, v)] := by
-  induction l with
-  | nil => rfl
-  | cons p t ih =>
-    obtain ⟨k', v'⟩ := p
-    simp only [List.map_cons, List.mem_cons, not_or] at h
-    simp only [upsert]
-    have : ¬ k' = k := fun e => h.1 e.symm
-    simp [this, ih h.2]
-
-theorem oaOps_aux (ms : List MethodIn) (acc : List ((Str × Str) × Str))
-    (hnd : (acc.map Prod.fst ++ ms.map opKey).Nodup) :
-    ms.foldl (fun acc m => upsert (opKey m) m.methName acc) acc
-      = acc ++ ms.map (fun m => (opKey m, m.methName)) := by
-  induction ms generalizing acc with
-  | nil => simp
-  | cons m t ih =>
-    simp only [List.foldl_cons, List.map_cons]
-    have hk : opKey m ∉ acc.map Prod.fst := by
-      intro hmem
-      have := List.nodup_append.mp hnd
-      exact this.2.2 _ hmem _ (List.mem_cons_self) rfl
-    rw [upsert_absent _ _ _ hk]
-    have : ((acc ++ [(opKey m, m.methName)]).map Prod.fst ++ t.map opKey).Nodup := by
-      simpa [List.append_assoc] using hnd
-    rw [ih _ this]
-    simp
 
 /-- **C03 (one operation per RPC), partial**: when the (path, verb) pairs of a service's RPCs
 are pairwise distinct, the document has exactly one operation per RPC, in declaration order. -/
